@@ -212,6 +212,8 @@ pub const TOKENS: &[&str] = &[
     "#%a", "#%app", "#%",
     // quote shorthands
     "'a", "`a", ",a", ",@a", "'nil", "'t", "':a", "'a:", "'1", "'12ab", "''a", "'[a b]", ",'a",
+    // a number (or a sign) directly followed by '#' or '|' : not a numeric literal as a whole
+    "12#t", "1#", "7#:k", "1|", "-1#f", "+2#x10", "1.5#",
     // peculiar and ordinary identifiers
     "...", ".a", "..", "a.b", "foo", "foo-bar", "λ", "λx", "x中", "!x", "<=", "*", "/", "a1", "a+", "e1", "E", "x", "set!", "a?", "?a?", "$", "%a", "&rest", "~", "^", "_", "a_b",
 ];
@@ -459,10 +461,24 @@ fn case_tok(rep: &mut Report, tok: &str, ci: usize) {
     let class = token_class(tok);
     let mut reported_a = false;
     let mut reported_b = false;
+    let mut reported_d = false;
     for qi in 0..N_Q {
         let q = Q::from_index(qi);
         let r = lexpr::from_str_custom(&input, q.to_lexpr());
         rep.eval();
+        // the option-governed reading must be the same through the location-tracking API
+        if !reported_d {
+            let rd = lexpr::datum::from_str_custom(&input, q.to_lexpr()).map(|d| d.value().clone());
+            if result_key(&r) != result_key(&rd) {
+                reported_d = true;
+                rep.violation(
+                    "datum-api",
+                    format!("C08:datum-api-reads-differently:{}:{}", class, cx.name),
+                    format!("input {:?} with {}: value API gives {} but datum API gives {}", show_str(&input), q.describe(), result_key(&r), result_key(&rd)),
+                    json!({"input": input, "q_index": qi}),
+                );
+            }
+        }
         rep.distinct(hash2(hash_str(&input), qi as u64));
         // ---- (b) non-interference
         let key = project(&q, mask);
